@@ -518,6 +518,26 @@ func c12Model(nG int) porcupine.Model {
 	}
 }
 
+// c12LateCtx is a context whose Err() can turn non-nil before its Done()
+// channel closes (what litefs.Store.PrimaryCtx returns behaves like that
+// between the loss of the role and the helper goroutine's cancel).
+type c12LateCtx struct {
+	context.Context
+	mu  sync.Mutex
+	err error
+}
+
+func (c *c12LateCtx) Err() error {
+	c.mu.Lock()
+	defer c.mu.Unlock()
+	if c.err != nil {
+		return c.err
+	}
+	return c.Context.Err()
+}
+func (c *c12LateCtx) lose()      { c.mu.Lock(); c.err = litefs.ErrLeaseExpired; c.mu.Unlock() }
+func (c *c12LateCtx) lost() bool { c.mu.Lock(); defer c.mu.Unlock(); return c.err != nil }
+
 func c12Concurrent(r *Run, nG int) {
 	t := r.Tape
 	s := r.NewSched()
@@ -538,6 +558,7 @@ func c12Concurrent(r *Run, nG int) {
 		op       string
 		invokeAt time.Duration
 		cancel   context.CancelFunc
+		late     *c12LateCtx
 		done     bool
 		doneAt   time.Duration
 		ok       bool
@@ -587,8 +608,13 @@ func c12Concurrent(r *Run, nG int) {
 				case "state":
 					out.State = guardStateByte(g.State())
 				case "block-lock", "block-rlock":
-					ctx, cancel := context.WithCancel(context.Background())
-					p := &pending{g: gi, op: op, invokeAt: r.SimNow(), cancel: cancel}
+					inner, cancel := context.WithCancel(context.Background())
+					// the caller's context is of the kind LiteFS passes in itself
+					// (Store.PrimaryCtx): its Err() turns non-nil the moment the role
+					// is lost, its Done() channel closes a little later
+					lc := &c12LateCtx{Context: inner}
+					var ctx context.Context = lc
+					p := &pending{g: gi, op: op, invokeAt: r.SimNow(), cancel: cancel, late: lc}
 					mu.Lock()
 					pend = append(pend, p)
 					mu.Unlock()
@@ -632,6 +658,15 @@ func c12Concurrent(r *Run, nG int) {
 		for _, p := range pend {
 			if !p.done {
 				p := p
+				if !p.late.lost() {
+					acts = append(acts, Action{Name: fmt.Sprintf("role-lost-g%d", p.g), Weight: 8, Do: func() {
+						// Err() reports the loss from now on; Done() stays open: the call
+						// keeps waiting, and whatever it returns has to agree with
+						// whether it took the lock
+						p.late.lose()
+						r.Count("c12.role-lost-while-blocked")
+					}})
+				}
 				acts = append(acts, Action{Name: fmt.Sprintf("cancel-g%d", p.g), Weight: 15, Do: func() {
 					p.cancel()
 					r.Count("c12.cancel")
